@@ -95,6 +95,7 @@ RULES = {
     "render-focus-path": "render(root, focus=True): every leaf rendered with focus=True lies on the focus path at that moment and the focus leaf, if rendered, is rendered with focus=True; render(root, focus=False): no leaf is rendered with focus=True; neither raises",
     "click-focus": "a button-1 press on a cell where leaf X is drawn raises nothing and, for every container on the way from the root to X whose child on that way reports selectable(), makes that child the container's focus",
     "focus-path-roundtrip": "set_focus_path(p) for a path p read earlier by get_focus_path() (no contents edit in between) restores p and the same focus leaf; set_focus_path of any valid path makes it a prefix of get_focus_path(); an invalid path (bad position, or continuing below a leaf) raises IndexError",
+    "assignment-kept": "a valid focus_position assignment or set_focus_path that was accepted is not undone by what follows without navigating: after the next render(s) of the root and after every following key that is bound to no command, each container assigned to still reports the assigned position and that child as its focus (the path written is the path read back later), and every leaf offered such a key inside an assigned container lies under the assigned child (input follows the focus path that was written); positions *below* a ListBox on the written path are exempt (the ListBox re-chooses the focus inside the newly focused item when it completes the change: known finding KF2)",
     "random-histories": "every clause above, evaluated at every step of seeded random histories on seeded random nestings of depth <= 3 (leaves S/U/E); non-exhaustive; failures carry the clause in `clause` and `sig`",
     "positions-enumerable": "iter(container) yields exactly the valid positions of the reference tree in order, len(container.contents) is their number, and for a Frame iter(frame.contents) yields the parts present",
 }
@@ -195,7 +196,13 @@ class TListBox(urwid.ListBox):
     def keypress(self, size, key):
         if self._h is not None:
             self._h.lb_sizes[self._cid] = tuple(size)
+            self._h.lb_settled.add(self._cid)
         return super().keypress(size, key)
+
+    def render(self, size, focus=False):
+        if self._h is not None:
+            self._h.lb_settled.add(self._cid)
+        return super().render(size, focus)
 
 
 def _exc(e):
@@ -237,9 +244,11 @@ class H:
         self.keylog = None
         self.renderlog = None
         self.lb_sizes = {}
+        self.lb_settled = set()  # ListBoxes that have been rendered or offered a key (their deferred first focus choice is made)
         self.text = None
         self.paths = []
         self.last_edit_state = 0
+        self.assigned = None  # [(container node, position)] of the last accepted assignment, while nothing navigated or edited since
         self.root = self.build(tree, "box")
 
     # ------------------------------------------------------------------ building
@@ -550,6 +559,8 @@ class H:
     # ------------------------------------------------------------------ operations
     def apply(self, op):
         k = op[0]
+        if k in ("click", "edit"):
+            self.assigned = None
         if k == "key":
             self.op_key(op[1])
         elif k == "click":
@@ -564,6 +575,8 @@ class H:
             raise ValueError(op)
 
     def op_key(self, key):
+        if urwid.command_map[key] is not None:
+            self.assigned = None  # a navigation key may move any focus
         before = self.snapshot()
         chain0 = self.chain()
         self.keylog = []
@@ -579,6 +592,8 @@ class H:
         # offered only to the focus path
         off = sorted({n.name for n, _k, _r, onp in log if not onp})
         self.rec("keypress-focus-path", not off, f"keypress({key!r}) was offered to leaves {off} that are not on the focus path", "offered-off-path", nontrivial=bool(log))
+        if self.assigned:
+            self.assignment_clause(f"keypress({key!r})", "key", [n for n, _k, _r, _o in log])
         # reaches the focus leaf when the whole focus path is selectable and the leaf is drawn
         if self.mode == "A" and self.text is not None and chain0[-1].is_leaf():
             leaf = chain0[-1]
@@ -729,6 +744,7 @@ class H:
             if not why and others:
                 why = f"{lab} changed the focus of other containers {others}"
             self.rec("invalid-position", not why, why, "valid-assignment", valid=True)
+            self.note_assignment([(n, val)], before)
             return
         if err is None:
             self.rec("invalid-position", False, f"{lab} (valid positions {valid_focus_positions(n.kind, len(n.kids or ()), tuple(cm))}) was accepted", f"invalid-accepted-{n.kind}", valid=False)
@@ -738,6 +754,52 @@ class H:
                      exc=type(err).__name__, kind=n.kind, value_type=type(val).__name__, where=_where(err))
             raise Stop
         self.rec("invalid-position", after == before, f"{lab} raised IndexError but focus state changed", "invalid-changed-state", valid=False)
+
+    # ------------------------------------------------------------------ an accepted assignment stays
+    def below_listbox(self, node):
+        """Is `node` strictly below a ListBox of the reference tree?"""
+        way = self.path_to(node) if node is not self.root else []
+        return any(c.kind == "ListBox" for c, _d in (way or []))
+
+    def note_assignment(self, pairs, before=None):
+        # Oracle note (reading adopted in the module docstring): a ListBox that was never rendered nor offered a key
+        # still owes its deferred "first selectable" focus choice; naming the position it already reports changes
+        # nothing (set_focus_path skips the assignment), so that choice may still move it -- not held to the clause.
+        pairs = [(n, p) for n, p in pairs if not (n.kind == "ListBox" and n.cid not in self.lb_settled and before is not None and before.get(n.cid, ("", 0))[0] == repr(p))]
+        # Oracle note (KF2, known finding): a ListBox completing a focus change calls move_cursor_to_coords on the item
+        # it moves to, which may re-choose the focus inside that item -- positions below a ListBox are not held to
+        # the clause, the ListBox's own position and everything above it are.
+        # assignments accumulate (assigning one container's position leaves every other container's focus alone:
+        # invalid-position checks that); a newer assignment to the same container replaces the older one
+        new = [(n, p) for n, p in pairs if not self.below_listbox(n)]
+        old = [(n, p) for n, p in (self.assigned or []) if all(n is not m for m, _q in new)]
+        self.assigned = (old + new) or None
+
+    def assignment_clause(self, what, when, offered=()):
+        problems = []
+        for n, p in self.assigned:
+            cm = n.children()
+            lab = f"{n.kind}#{n.cid}"
+            try:
+                got = n.base.focus_position
+                if got != p:
+                    problems.append((f"{lab}.focus_position was assigned {p!r}; after {what} it reads {got!r}", f"assignment-lost-{n.kind}-after-{when}"))
+                elif n.base.focus is not cm[p].widget:
+                    problems.append((f"{lab}.focus is not the child at the assigned position {p!r} after {what}", f"assignment-focus-differs-{n.kind}-after-{when}"))
+            except Exception as e:  # noqa: BLE001
+                problems.append((f"{lab}.focus_position raised {_exc(e)} after {what}", f"assignment-raised-{n.kind}-after-{when}"))
+            for leaf in offered:
+                way = self.path_to(leaf) or []
+                step = [d for c, d in way if c is n]
+                if step and step[0] is not cm.get(p):
+                    problems.append((f"{what} was offered to leaf {leaf.name}, which is inside {lab} but not under its assigned focus position {p!r}", f"offered-off-assigned-path-{n.kind}"))
+        seen = set()
+        for why, sig in problems:
+            if sig not in seen:
+                seen.add(sig)
+                self.rec("assignment-kept", False, why, sig, when=when)
+        if not problems:
+            self.rec("assignment-kept", True, nontrivial=True, when=when)
 
     def path_valid(self, path):
         n = self.root
@@ -764,6 +826,9 @@ class H:
 
     def op_setpath(self, path):
         valid = self.path_valid(path)
+        before = self.snapshot()
+        if not valid:
+            self.assigned = None  # an invalid path may have been applied up to the bad position before raising
         err = None
         try:
             self.root.base.set_focus_path(list(path))
@@ -778,6 +843,11 @@ class H:
             except Exception as e:  # noqa: BLE001
                 self.raised("focus-path-roundtrip", "get_focus_path()", e)
             self.rec("focus-path-roundtrip", got[: len(path)] == list(path), f"after {lab} get_focus_path() = {got!r}", "path-not-prefix", valid=True)
+            pairs, n = [], self.root
+            for pos in path:
+                pairs.append((n, pos))
+                n = n.children()[pos]
+            self.note_assignment(pairs, before)
             return
         if err is None:
             self.rec("focus-path-roundtrip", False, f"invalid {lab} was accepted", "invalid-path-accepted", valid=False)
@@ -862,6 +932,8 @@ class H:
         if self.mode == "A":
             self.probe()
             self.inv("after-render")
+            if self.assigned:
+                self.assignment_clause("render(root, focus=True) and render(root, focus=False)", "render")
         try:
             p = list(self.root.base.get_focus_path()) if not self.root.is_leaf() else []
             self.paths.append((p, self.chain()[-1]))
@@ -872,6 +944,8 @@ class H:
         if self.mode == "B":
             self.probe()
             self.inv("after-render")
+            if self.assigned:
+                self.assignment_clause("the first render(root, focus=True) and render(root, focus=False)", "render")
         if not self.ops_done or self.ops_done[-1][0] == "edit":
             self.enumerable()  # positions depend on the structure only
         self.roundtrip()
@@ -991,6 +1065,8 @@ class H:
     # ------------------------------------------------------------------ operation alphabet in the current state
     def gen_ops(self, level):
         """level 'F': full alphabet, 'R': reduced alphabet, 'O': observations only (reduced keys and clicks)."""
+        if level in ("K", "k", "S", "s"):
+            return self.gen_ops_focus(level)
         full = level == "F"
         ops = [["key", k] for k in (KEYS_FULL if full else KEYS_RED)]
         if not full and any(n.kind == "ListBox" for n in self.containers()):
@@ -1045,6 +1121,31 @@ class H:
                     ops.append(["setpath", [*paths[0][:-1], "nope"]])
                     ops.append(["setpath", [*paths[0][:-1], 7]])
         return ops
+
+    def gen_ops_focus(self, level):
+        """level 'K': every key of the full alphabet, nothing else; 'k': the keys that scroll a ListBox; 'S': every valid
+        focus_position assignment on every container and set_focus_path of every root-to-leaf path (and of every proper
+        prefix that ends at a container); 's': the focus_position assignments only."""
+        if level == "K":
+            return [["key", k] for k in KEYS_FULL]
+        if level == "k":
+            return [["key", k] for k in ("down", "page down", "end")]
+        ops = []
+        paths = []
+
+        def walk(n, acc):
+            cm = n.children()
+            if acc:
+                paths.append(acc)
+            if n.is_leaf():
+                return
+            for p in valid_focus_positions(n.kind, len(n.kids or ()), tuple(cm)):
+                ops.append(["setfocus", n.cid, p])
+            for p, c in cm.items():
+                walk(c, [*acc, p])
+
+        walk(self.root, [])
+        return ops + ([["setpath", p] for p in paths] if level == "S" else [])
 
     def gen_edits(self, n, full):
         out = []
@@ -1302,6 +1403,31 @@ EXTRA = [
 ]
 
 
+# ListBoxes longer than their view (root: 12 rows; inside a flow container: BoxAdapter of 3 rows; Frame body: 10 rows;
+# Overlay top: 9 rows), one-row leaves and taller items: the positions a focus assignment can name are mostly *not*
+# among the widgets drawn around the old focus, so ListBox._set_focus_complete has to scroll.
+LONG = [
+    ["ListBox", "F", ["S", "U", "S", "S", "U", "E", "S", "S", "U", "S", "S", "S", "U", "S", "S", "U"]],
+    ["ListBox", "L", ["U", "S", "S", "S", "U", "S", "S", "E", "S", "S", "U", "S", "S", "S"]],
+    ["Pile", ["S", ["ListBox", "F", ["S", "U", "S", "S", "E", "S"]]]],
+    ["Columns", [["Pile", [["ListBox", "L", ["S", "S", "U", "S", "S"]], "S"]], "S"]],
+    ["Frame", ["ListBox", "F", ["S", "S", "U", "S", "S", "S", "S", "U", "S", "S", "S", "S", "S"]], "S", "U"],
+    ["ListBox", "F", [["Pile", ["S", "E", "S"]], ["Pile", ["S", "S", "S"]], "U", ["Pile", ["U", "S", "S"]], ["Columns", ["S", "S"]], ["Pile", ["S", "S", "S"]], "S"]],
+    ["Overlay", ["ListBox", "F", ["S", "S", "S", "U", "S", "S", "S", "S", "S", "U", "S", "S"]]],
+]
+
+# Frames whose header and footer ask for at least as many rows as the Frame has (root: 12 rows; in a flow container:
+# BoxAdapter of 5 rows): frame_top_bottom trims them, render draws a trimmed part through a Filler, and keypress /
+# mouse_event must agree with what is drawn.
+SQUEEZED = [
+    ["Frame", "S", ["Pile", ["S", "U", "S", "U", "S", "U", "S"]], ["Pile", ["U", "S", "U", "S", "U", "S"]]],
+    ["Frame", ["ListBox", "F", ["S", "U", "S"]], ["Pile", ["E", "S", "S", "S", "S", "S"]], ["Pile", ["S", "S", "S", "S", "S", "S", "S"]]],
+    ["Pile", ["S", ["Frame", "S", ["Pile", ["S", "S", "S"]], ["Pile", ["U", "S", "S"]]]]],
+    ["Frame", "U", ["Pile", ["S"] * 13], None],
+    ["Frame", "S", None, ["Columns", [["Pile", ["S"] * 12], "S"]]],
+]
+
+
 def _small_flat(quick=False):
     out = []
     for t in flat_trees():
@@ -1324,7 +1450,7 @@ def _tasks(tier, seed):
         size = len(json.dumps(tree)) // 20
         cost = 1
         for lvl in levels:
-            cost *= {"F": 60 + 25 * size, "R": 28 + 8 * size, "O": 10 + size}[lvl]
+            cost *= {"F": 60 + 25 * size, "R": 28 + 8 * size, "O": 10 + size, "K": 10, "k": 3, "S": 6 + 6 * size, "s": 3 + 3 * size}[lvl]
         tasks.append((("explore", tree, mode, levels), cost * (1 + size)))
 
     if tier == "quick":
@@ -1342,13 +1468,21 @@ def _tasks(tier, seed):
             ex(t, "AB"[i % 2], "R")
         for t in EXTRA:
             ex(t, "A", "F")
+        for i, t in enumerate(LONG):
+            for mode in "AB":
+                ex(t, mode, "SK")
+            ex(t, "AB"[i % 2], "ksK")
+        for i, t in enumerate(SQUEEZED):
+            for mode in "AB":
+                ex(t, mode, "F")
+            ex(t, "AB"[i % 2], "SK")
         for i in range(16):
             tasks.append((("random", seed * 1000 + i, 3, 3, 4), 2000))
         bound = (
             f"{len(flat)} flat containers (0-3 leaves S/U; Frame with/without header/footer; Overlay): every single operation of the full alphabet, modes A and B; "
             f"{len(small)} of them (<=2 leaves) and {len(PAIRS)} two-level nestings: all histories of length 2 over the reduced alphabet, one mode each; "
             f"{len(nested)} two-level nestings (13 inner containers x 4 sibling patterns x 5 list containers, Frame parts, Overlay): every single operation (full alphabet for every fourth, reduced otherwise); "
-            f"{len(d3[::3])} three-level nestings: reduced single operations; {len(EXTRA)} hand-picked nestings: full single operations; 48 seeded random depth-3 trees x 3 histories of length 4 (non-exhaustive)"
+            f"{len(d3[::3])} three-level nestings: reduced single operations; {len(EXTRA)} hand-picked nestings: full single operations; {len(LONG)} nestings with a ListBox longer than its view (5-16 items, one-row and taller): every focus_position assignment / set_focus_path followed by every key, both modes, and a scrolling key (down, page down, end), a focus_position assignment and any key, one mode; {len(SQUEEZED)} Frames whose header + footer rows fill the frame (trimmed parts): every single operation of the full alphabet in both modes, every assignment followed by every key in one mode; 48 seeded random depth-3 trees x 3 histories of length 4 (non-exhaustive)"
         )
     else:
         for t in flat:
@@ -1372,13 +1506,23 @@ def _tasks(tier, seed):
         for t in EXTRA:
             for mode in "AB":
                 ex(t, mode, "FR")
+        for i, t in enumerate(LONG):
+            for mode in "AB":
+                ex(t, mode, "kSK")
+            ex(t, "AB"[i % 2], "KsK")
+            ex(t, "BA"[i % 2], "ssK")
+        for i, t in enumerate(SQUEEZED):
+            ex(t, "AB"[i % 2], "FR")
+            ex(t, "BA"[i % 2], "F")
+            for mode in "AB":
+                ex(t, mode, "SK")
         for i in range(48):
             tasks.append((("random", seed * 1000 + i, 10, 5, 6), 10**6))
         bound = (
             f"{len(flat)} flat containers (0-3 leaves S/U; Frame parts; Overlay): all histories of length <=2 (full alphabet, then reduced), modes A and B; "
             f"{len(small)} of them (<=2 leaves): all histories of two reduced-alphabet operations followed by one key or click, one mode each; {len(PAIRS)} two-level nestings: length <=2 (full, reduced), both modes; "
             f"{len(nested)} two-level nestings: every single operation of the full alphabet in both modes, every third one also every reduced operation followed by a key or click; "
-            f"{len(d3)} three-level nestings: single operations (full) in both modes, every fourth also reduced operation + key/click; {len(EXTRA)} hand-picked nestings: length <=2; 480 seeded random depth-3 trees x 5 histories of length 6 (non-exhaustive)"
+            f"{len(d3)} three-level nestings: single operations (full) in both modes, every fourth also reduced operation + key/click; {len(EXTRA)} hand-picked nestings: length <=2; {len(LONG)} nestings with a ListBox longer than its view: scrolling key + assignment + key in both modes, any key + focus_position assignment + key and two focus_position assignments + key in one mode each; {len(SQUEEZED)} Frames with trimmed header/footer: length <=2 (full, reduced) in one mode, single operations (full) in the other, assignment + key in both; 480 seeded random depth-3 trees x 5 histories of length 6 (non-exhaustive)"
         )
     return tasks, bound
 
